@@ -1,5 +1,7 @@
 (* C18 - Formatted-text conversions preserve text; interpolated values are inert.
-   Statements only; proofs are in Proofs/C18_{Fragments,Ansi,Html}Facts.v.
+   Statements only; proofs are in Proofs/C18_*.v (FragmentsFacts, AnsiFacts, AnsiStrip,
+   AnsiSeq, HtmlFacts, HtmlTemplate, HtmlPlain, HtmlAny, ConvertFacts, ExplodedFacts,
+   WidthFacts, ModFacts).
 
    Vocabulary (defined in the Proofs files):
      view frs          the characters of a fragment list, each with the style and
@@ -9,13 +11,14 @@
      no_intro w        w contains none of ESC, \x9b, \001
      is_ctl / neutralise   the five control characters ESC \b \x9b \001 \002 -> '?'
      esc1 / dat        html_escape per character / the character it delivers as data
-   [cfg_now] is the code that is in /repo now (with the six 'fix:' commits
-   86103a9 baf43a1 afcdc3a 8fdddd4 74c3a15 7fe5e6f ae5d17b); the headline theorems are
+   [cfg_now] is the code that is in /repo now (with the eight 'fix:' commits
+   86103a9 baf43a1 afcdc3a 8fdddd4 74c3a15 7fe5e6f ae5d17b 44b4e9c); the headline theorems are
    about it.  [cfg_pinned] is the pinned snapshot: each `_pinned_refuted`
    theorem is the witness that the same statement was false there. *)
 From Coq Require Import ZArith List Bool.
 From PTK Require Import Lib.Sx Lib.Py Gen.C18_Tables Gen.Whitespace Model.C18_Fragments Model.C18_Ansi Model.C18_Html
   Model.C18_Convert Model.C18_AnsiGrammar Model.C18_Exploded Model.C18_Width Model.C18_Mod
+  Model.C18_HtmlAny Model.C18_AnsiSeq Proofs.C18_HtmlAny Proofs.C18_AnsiSeq
   Proofs.C18_FragmentsFacts Proofs.C18_AnsiFacts Proofs.C18_HtmlFacts Proofs.C18_ConvertFacts Proofs.C18_AnsiStrip Proofs.C18_HtmlTemplate
   Proofs.C18_ExplodedFacts Proofs.C18_WidthFacts Proofs.C18_ModFacts Proofs.C18_HtmlPlain.
 Import ListNotations.
@@ -103,17 +106,29 @@ Theorem C18_exploded_iadd_refuted :
 Proof. exact iadd_invariant_refuted. Qed.
 Print Assumptions C18_exploded_iadd_refuted.
 
-(* About PROPOSED code: [setitem_int_patched] transcribes the patch, which is not
-   in /repo and which no correspondence case exercises.
-   After fixes/C18-exploded-list-index-iadd.patch: every index in -len..len-1
-   replaces its item, any other raises, and += keeps the invariant. *)
-Theorem C18_exploded_setitem_patched : forall l i v,
-  let j := if i <? 0 then i + len l else i in
-  setitem_int_patched l i v =
-  if (j <? 0) || (len l <=? j) then None
-  else Some (firstn (Z.to_nat j) l ++ explode [v] ++ skipn (Z.to_nat (j + 1)) l).
-Proof. exact setitem_int_patched_spec. Qed.
-Print Assumptions C18_exploded_setitem_patched.
+(* lst[i] = v for EVERY int index, as the code is (`slice(i, i + 1)`): i >= len
+   appends, 0 <= i < len replaces item i, i = -1 inserts before the last item
+   (C18-F10), -len <= i < -1 replaces item i + len, i < -len prepends; no index
+   raises. *)
+Theorem C18_exploded_setitem_total : forall l i v,
+  setitem_int l i v =
+  if len l <=? i then l ++ explode [v]
+  else if 0 <=? i then firstn (Z.to_nat i) l ++ explode [v] ++ skipn (Z.to_nat (i + 1)) l
+  else if i =? -1 then firstn (Z.to_nat (len l - 1)) l ++ explode [v] ++ skipn (Z.to_nat (len l - 1)) l
+  else if - len l <=? i then
+    firstn (Z.to_nat (i + len l)) l ++ explode [v] ++ skipn (Z.to_nat (i + len l + 1)) l
+  else explode [v] ++ l.
+Proof. exact setitem_int_total. Qed.
+Print Assumptions C18_exploded_setitem_total.
+
+(* Measured against the semantics of a plain Python list ([setitem_int_listsem]:
+   a SPECIFICATION - IndexError outside -len..len-1, negative indices from the
+   end): wherever a plain list accepts the index and i <> -1, the code does the
+   same. *)
+Theorem C18_exploded_setitem_vs_list : forall l i v r,
+  setitem_int_listsem l i v = Some r -> i <> -1 -> setitem_int l i v = r.
+Proof. exact setitem_int_vs_list. Qed.
+Print Assumptions C18_exploded_setitem_vs_list.
 
 (* fragment_list_width, for ANY wcwidth: the width of the plain text; exploding keeps it. *)
 Theorem C18_width_is_text_width : forall w frs,
@@ -139,36 +154,25 @@ Print Assumptions C18_pygments_plain_text.
    escaping each conversion's output; *)
 Theorem C18_html_mod_commuting : forall conv parts specs vals,
   (forall sp s, conv sp (html_escape cfg_now s) = html_escape cfg_now (conv sp s)) ->
-  html_mod_markup conv parts specs vals = html_mod_markup_patched conv parts specs vals.
+  html_mod_markup conv parts specs vals = html_mod_markup_spec conv parts specs vals.
 Proof. exact html_mod_commuting. Qed.
 Print Assumptions C18_html_mod_commuting.
 
 Theorem C18_ansi_mod_commuting : forall conv parts specs vals,
   (forall sp s, conv sp (ansi_escape cfg_now s) = ansi_escape cfg_now (conv sp s)) ->
-  ansi_mod_text conv parts specs vals = ansi_mod_text_patched conv parts specs vals.
+  ansi_mod_text conv parts specs vals = ansi_mod_text_spec conv parts specs vals.
 Proof. exact ansi_mod_commuting. Qed.
 Print Assumptions C18_ansi_mod_commuting.
 
-(* for HTML a truncating conversion does not commute (finding C18-F9): '<b>%.3s</b>' % '&&&&'. *)
+(* for HTML a truncating conversion does not commute and the code misses the
+   specification (finding C18-F9): '<b>%.3s</b>' % '&&&&'. *)
 Theorem C18_html_mod_refuted :
   exists conv parts specs vals,
     html_parse cfg_now (html_mod_markup conv parts specs vals) = Err 2 /\
-    html_parse cfg_now (html_mod_markup_patched conv parts specs vals)
+    html_parse cfg_now (html_mod_markup_spec conv parts specs vals)
     = Ok [mkfrag [99; 108; 97; 115; 115; 58; 98] [38; 38; 38] []].
 Proof. exact html_mod_refuted. Qed.
 Print Assumptions C18_html_mod_refuted.
-
-(* DEFINITIONAL, and about PROPOSED code: [html_mod_markup_patched] transcribes
-   fixes/C18-html-mod-conversions.patch, which is not in /repo and which no
-   correspondence case exercises.
-   After fixes/C18-html-mod-conversions.patch the markup is the template with
-   each conversion's OUTPUT escaped: an ordinary interpolation of the outputs,
-   to which every inertness theorem applies, whatever the conversions do. *)
-Theorem C18_html_mod_patched_is_interpolation : forall conv parts specs vals,
-  html_parse cfg_now (html_mod_markup_patched conv parts specs vals)
-  = html_template cfg_now parts (map2_conv conv specs vals).
-Proof. exact html_mod_patched_is_interpolation. Qed.
-Print Assumptions C18_html_mod_patched_is_interpolation.
 
 (* ---- to_formatted_text / merge_formatted_text ------------------------ *)
 
@@ -242,6 +246,46 @@ Theorem C18_ansi_plain_fragments : forall k s,
   ansi_parse k s = Ok (as_text [] s) /\ fragment_list_to_text (as_text [] s) = s.
 Proof. exact ansi_plain. Qed.
 Print Assumptions C18_ansi_plain_fragments.
+
+(* Sequences of escapes (round 6).  ANSI(s) is, fragment for fragment and
+   style for style, the denotation [ansi_sem s] of the token sequence of s
+   (Model/C18_AnsiSeq.v: a fold over the grammar-level tokens that threads the
+   SGR state - an SGR sequence changes the state for everything after it,
+   `CSI n C` shows its spaces in the style in effect, ESC x / zero-width
+   regions / unsupported or unterminated sequences leave the state alone).
+   For EVERY string; strictly stronger than C18_ansi_plain (styles included). *)
+Theorem C18_ansi_sequence : forall s, ansi_parse cfg_now s = Ok (ansi_sem s).
+Proof. exact ansi_sequence. Qed.
+Print Assumptions C18_ansi_sequence.
+
+(* the state after a prefix of tokens is all the rest depends on, *)
+Theorem C18_ansi_sem_compositional : forall g a b,
+  sem g (a ++ b) = sem g a ++ sem (sgr_after g a) b.
+Proof. exact sem_app. Qed.
+Print Assumptions C18_ansi_sem_compositional.
+
+(* only SGR sequences change it, *)
+Theorem C18_ansi_state_only_sgr : forall g ts,
+  forallb (fun t => negb (is_sgr t)) ts = true -> sgr_after g ts = g.
+Proof. exact sgr_after_no_sgr. Qed.
+Print Assumptions C18_ansi_state_only_sgr.
+
+(* so a character after `SGR, then any number of other tokens` (text,
+   cursor-forward, ESC x, zero-width regions, unsupported sequences) still
+   carries that SGR's style, and cursor-forward right after an SGR shows its
+   spaces in that style. *)
+Theorem C18_ansi_style_persists : forall g e ps mid c,
+  forallb (fun t => negb (is_sgr t)) mid = true ->
+  exists o, sem g (TCsi e ps 109 :: mid ++ [TChar c])
+            = o ++ [mkfrag (create_style_string (select_graphic_rendition (csi_params ps) g)) [c] []].
+Proof. exact sem_style_persists. Qed.
+Print Assumptions C18_ansi_style_persists.
+
+Theorem C18_ansi_cuf_after_sgr : forall g e1 ps1 e2 ps2,
+  sem g [TCsi e1 ps1 109; TCsi e2 ps2 67]
+  = spaces (create_style_string (select_graphic_rendition (csi_params ps1) g)) (Z.to_nat (hd 0 (csi_params ps2))).
+Proof. exact sem_cuf_after_sgr. Qed.
+Print Assumptions C18_ansi_cuf_after_sgr.
 
 (* The parser accepts every string. *)
 Theorem C18_ansi_total : forall s, exists o, ansi_parse cfg_now s = Ok o.
@@ -352,26 +396,25 @@ Print Assumptions C18_html_escape_no_apos.
    element and between tokens, fed the escaped value, decodes it back to the
    value (characters XML cannot carry as '?') and consumes all of it as data
    of the text node being built; stacks, output so far and error flags are
-   untouched and no markup state is entered.  Only side condition: no \r in
-   the value (XML line-end normalisation turns it into \n). *)
+   untouched and no markup state is entered.  No side condition any more: since
+   44b4e9c a \r travels as the character reference &#13; and arrives verbatim. *)
 Theorem C18_html_text_inert : forall v h acc rb,
   h_mode h = HText acc false rb -> h_stack h <> [] ->
-  ~ In 13 v ->
   exists rb', hrun cfg_now h (html_escape cfg_now v)
               = Ok (set_hmode h (HText (acc ++ map (dat cfg_now) v) false rb')).
-Proof. exact html_text_inert_now. Qed.
+Proof. exact html_text_inert_cr. Qed.
 Print Assumptions C18_html_text_inert.
 
 (* Inertness at an attribute position, either quote style: the escaped value
-   extends that attribute's value and nothing else (values without \t \n \r,
-   which attribute-value normalisation turns into spaces). *)
+   extends that attribute's value and nothing else (values without \t \n,
+   which attribute-value normalisation turns into spaces; \r arrives verbatim). *)
 Theorem C18_html_attr_inert : forall nm ats an q v h acc,
   h_mode h = HAttrVal nm ats an q acc false ->
   (q = DQ \/ q = SQ) ->
-  (forall c, In c v -> c <> 13 /\ c <> 10 /\ c <> 9) ->
+  (forall c, In c v -> c <> 10 /\ c <> 9) ->
   hrun cfg_now h (html_escape cfg_now v)
   = Ok (set_hmode h (HAttrVal nm ats an q (acc ++ map (dat cfg_now) v) false)).
-Proof. exact html_attr_inert_now. Qed.
+Proof. exact html_attr_inert_cr. Qed.
 Print Assumptions C18_html_attr_inert.
 
 (* The fg/bg guard: a value it lets through has no str.isspace character,
@@ -432,6 +475,65 @@ Theorem C18_html_plain_text : forall tpl vals hd,
               fragment_list_to_text out = denote_text tpl vals.
 Proof. exact html_plain_text. Qed.
 Print Assumptions C18_html_plain_text.
+
+(* ANY template (round 6): no normal form.  [parts] are pieces of arbitrary
+   literal markup (raw GT / quotes in text, &#N; references, spaces around '=',
+   empty elements <x/>, anything the machine covers) with one hole between
+   neighbours.  [trun] (Model/C18_HtmlAny.v) is the specification: it runs the
+   literal pieces through the machine as written and inserts each value as
+   DATA into the text node / quoted attribute value under construction -
+   values are never parsed.  The real pipeline (html_escape each value, paste,
+   parse everything) computes exactly that, whenever the specification makes a
+   claim (every hole at a data position: character data inside the document
+   element or a quoted attribute value; no \t \n in an attribute value - every
+   value, \r included, at a text hole). *)
+Theorem C18_html_any_template : forall parts vals h,
+  match trun h parts vals with
+  | TOk h' => hrun cfg_now h (fill parts (map (html_escape cfg_now) vals)) = Ok h'
+  | TErr e => hrun cfg_now h (fill parts (map (html_escape cfg_now) vals)) = Err e
+  | TNoClaim => True
+  end.
+Proof. exact any_template. Qed.
+Print Assumptions C18_html_any_template.
+
+(* its single step: at a data position the escaped value is the value as data *)
+Theorem C18_html_inject : forall h v h2,
+  inject h v = Some h2 -> hrun cfg_now h (html_escape cfg_now v) = Ok h2.
+Proof. exact inject_correct. Qed.
+Print Assumptions C18_html_inject.
+
+(* composed with the root wrap and the final tests of HTML.__init__ *)
+Theorem C18_html_values_as_data : forall parts vals r,
+  html_values_as_data parts vals = Some r -> html_template cfg_now parts vals = r.
+Proof. exact values_as_data. Qed.
+Print Assumptions C18_html_values_as_data.
+
+(* For EVERY markup string (no grammar, no side condition): if HTML(s)
+   succeeds, no style it built contains '[' - in particular no fragment is
+   zero-width raw output or carries any other "[...]" token - and its plain text
+   is the concatenation of its fragments' texts.  (The XML name grammar keeps
+   '[' out of class names, the guard of ae5d17b out of fg/bg.)  So no template
+   and no value can make text disappear from to_plain_text. *)
+Theorem C18_html_never_zero_width : forall s out,
+  html_parse cfg_now s = Ok out ->
+  Forall (fun f => mem_Z 91 (fstyle f) = false) out /\
+  zw_payloads out = [] /\
+  fragment_list_to_text out = concat (map ftext out).
+Proof. exact html_never_zero_width. Qed.
+Print Assumptions C18_html_never_zero_width.
+
+(* Pinned snapshot (finding C18-F14, repaired by 44b4e9c): a \r in a value at a
+   text position was rewritten by XML line-end normalisation and swallowed a
+   template newline right after the hole: HTML('<b>%s\nx</b>') % 'a\r' -> 'a\nx'.
+   The code that is in /repo now delivers 'a\r\nx', as the specification says. *)
+Theorem C18_html_cr_pinned_refuted :
+  exists parts v,
+    html_template cfg_pinned parts [v] = Ok [mkfrag [99; 108; 97; 115; 115; 58; 98] [97; 10; 120] []] /\
+    v = [97; 13] /\
+    html_template cfg_now parts [v] = Ok [mkfrag [99; 108; 97; 115; 115; 58; 98] [97; 13; 10; 120] []] /\
+    html_values_as_data parts [v] = Some (Ok [mkfrag [99; 108; 97; 115; 115; 58; 98] [97; 13; 10; 120] []]).
+Proof. exact html_cr_pinned_refuted. Qed.
+Print Assumptions C18_html_cr_pinned_refuted.
 
 (* The guard: an element whose fg/bg/color datum contains '[' sets the
    ValueError flag (HTML() raises ValueError), so no style with a special
